@@ -22,3 +22,9 @@ func verifSerialRoundTrip(seq byte, subject string, points data.Points) ([]byte,
 type verifGhost struct{}
 
 var verifG = &verifGhost{}
+
+// verifGhost2 carries the ghost flags of the sync contracts for edge points (C02), kept apart from verifGhost so that
+// the edge-point loops do not touch the node-point flags.
+type verifGhost2 struct{}
+
+var verifG2 = &verifGhost2{}
